@@ -197,8 +197,8 @@ func (m *HeapMon) Check() {
 	} else if pok {
 		c.Fail("peek", "empty", "%s.Peek() reports an element on an empty container", m.Name)
 	}
-	if m.N > 150 && c.R.Intn(8) != 0 {
-		return
+	if m.N > 40 && c.R.Intn(16) != 0 {
+		return // Values()/iteration cost grows quadratically with the level width
 	}
 	vs := m.C.Values()
 	m.checkPerm("values", vs, p)
@@ -315,7 +315,7 @@ func init() {
 	core.Register(&core.Prop{
 		ID:    "C06",
 		Title: "Heap and priority queue always yield a minimum and never lose elements",
-		Cases: func(tier string) int { return tierN(tier, 6000, 300000) },
+		Cases: func(tier string) int { return tierN(tier, 16000, 400000) },
 		Run:   runC06,
 		Rule: "random interleavings of Push(1 value), bulk Push(k values, k in {0,2,3,4,7,8,9,15,16,17}), Pop/Dequeue, Peek, Clear and FromJSON/json.Unmarshal of arrays in arbitrary, ascending or descending order on BinaryHeap and PriorityQueue, " +
 			"elements {P, unique ID} under five comparators (min, max, all-equal, total, coarsened => ties between distinguishable elements); after every call Size, Peek minimality, Values() and a full iterator walk are compared with a multiset; every case ends with a full drain. " +
